@@ -803,10 +803,9 @@ class ConfigurableReference:
 
   def __eq__(self, other):
     if isinstance(other, self.__class__):
-      # pylint: disable=protected-access
-      return (self._configurable == other._configurable and
-              self._evaluate == other._evaluate)
-      # pylint: enable=protected-access
+      # (Through the property: either side may predate a re-registration.)
+      return (self.configurable == other.configurable and
+              self._evaluate == other._evaluate)  # pylint: disable=protected-access
     return False
 
   def __ne__(self, other):
